@@ -1,5 +1,7 @@
 (* C05 driver.
      compose <rtype> <field>...        -> Reject | <wire> <rdlen> <rdlen_compress> <canonical>
+     txtbuild <op>...                   -> <TXT RDATA built by TxtBuilder>   (ops s:<hex> u:<hex> c:<hex>, `.` = none)
+     lenrdata <rtype> <field>...        -> <len+wire> <len+canonical>   (provided methods through `&T`)
      viamsg <target> <rtype> <field>... -> rdlenc=<n|None> back=<decompressed rdata> rdlength=ok wire=<plain|any>
      parse <rtype> <msg> <pos> <lim>   -> Ok <field>... | Err short | Err form | Panic
      equnk <t1> <octets> <t2> <octets> -> all=<bool> zone=<bool>   (== inside AllRecordData / ZoneRecordData)
@@ -78,6 +80,25 @@ let handle = function
             | Some (Some c) ->
                 hex_of_bytes c.c_wire ^ " " ^ show_rdlen c.c_rdlen ^ " " ^ show_rdlen c.c_rdlen_c
                 ^ " " ^ hex_of_bytes c.c_canon))
+  | "txtbuild" :: ops ->
+      (* s:<hex> append_slice, u:<hex> append_u8 per octet, c:<hex> append_charstr; then finish *)
+      let op w = (let k = String.length w in
+                  let d = bytes_of_hex (String.sub w 2 (k - 2)) in
+                  match w.[0] with 's' -> TSlice d | 'u' -> TOctets d | 'c' -> TCharStr d | _ -> failwith "bad txt op") in
+      hex_of_bytes (c05_txtbuild (List.map op (List.filter (fun w -> w <> ".") ops)))
+  | "lenrdata" :: t :: toks ->
+      (* compose_len_rdata / compose_canonical_len_rdata through a reference: u16 length + RDATA *)
+      let t = n_of_int (int_of_string t) in
+      let hint = (match toks with _ :: g :: _ when int_of_n t = 45 -> n_of_int (int_of_string g) | _ -> n_of_int 0) in
+      (match c05_fields t hint with
+       | None -> "NoSchema"
+       | Some fields ->
+           let v = List.map2 fval_of_tok fields toks in
+           (match c05_compose t v with
+            | Some (Some c) ->
+                let pre b = (let k = List.length b in n_of_int (k / 256) :: n_of_int (k mod 256) :: b) in
+                hex_of_bytes (pre c.c_wire) ^ " " ^ hex_of_bytes (pre c.c_canon)
+            | _ -> "Reject"))
   | "viamsg" :: _target :: t :: toks ->
       (* a record pushed twice into a message on one of the targets (0 Vec, 1 Static, 2 Tree,
          3 Hash): the model's answer does not depend on the target *)
